@@ -270,3 +270,105 @@ func FuzzC04(f *testing.F) {
 		}
 	})
 }
+
+// ---------------------------------------------------------------------------
+// FuzzC01 (thorough tier of C01): the fuzz input IS the key set. The bytes are
+// decoded into options, an encoder, a value layout and a list of keys, so that
+// coverage feedback from the builder and the query code steers the search
+// towards trie shapes the rapid generators draw rarely. Every decoded case is a
+// legal input (keys are sorted and de-duplicated by construction); the oracle is
+// the model-based check of C01 followed by those of C02, C09 and C10 on the same
+// case, and of C03 when the case is Complete.
+
+var fuzzC01Encs = []string{"I32", "U16", "String16", "I64", "OptU16", "Bytes3", "I8", "TBEU32"}
+
+func decodeFuzzCase(data []byte) *Case {
+	if len(data) < 3 {
+		return nil
+	}
+	o, e, vm := data[0], data[1], data[2]
+	c := &Case{Gen: "fuzz"}
+	c.Opt = OptSpec{Tri(o % 3), Tri(o / 3 % 3), Tri(o / 9 % 3), Tri(o / 27 % 3)}
+	c.Enc = fuzzC01Encs[int(e)%len(fuzzC01Encs)]
+	c.Load = []string{"", "reload", "proto", "over"}[int(e>>4)%4]
+	set := map[string]struct{}{}
+	rest := data[3:]
+	prev := ""
+	for len(rest) > 0 && len(set) < 600 {
+		h := rest[0]
+		rest = rest[1:]
+		n := int(h & 15)
+		if n > len(rest) {
+			n = len(rest)
+		}
+		k := string(rest[:n])
+		rest = rest[n:]
+		switch h >> 6 {
+		case 1: // extend the previous key (prefix keys, long shared runs)
+			k = prev + k
+		case 2: // share all but the last byte of the previous key
+			if len(prev) > 0 {
+				k = prev[:len(prev)-1] + k
+			}
+		case 3: // repeat the material: long keys
+			k = strings.Repeat(k, 1+int(h>>4&3)*7)
+		}
+		set[k] = struct{}{}
+		prev = k
+	}
+	keys := sortedSet(set)
+	c.Keys = hexes(keys)
+	c.HasVals = vm%4 != 3
+	if c.HasVals {
+		w := c.spec().width
+		if w == 0 {
+			w = 2
+		}
+		for i, k := range keys {
+			var v uint64
+			switch vm % 4 {
+			case 0:
+				v = uint64(i) * 0x9e3779b97f4a7c15
+			case 1:
+				v = uint64(i / (1 + int(vm>>2)%5)) // runs of equal neighbours
+			case 2:
+				v = uint64(len(k)) % 3 // few distinct values, A B A patterns
+			}
+			c.Vals = append(c.Vals, Hex(leBytes(v, w)))
+		}
+	}
+	if len(keys) > 0 {
+		c.Win = int(vm>>4) % len(keys)
+	}
+	return c
+}
+
+var fuzzStats = newStats("C01")
+
+func FuzzC01(f *testing.F) {
+	f.Add([]byte{0, 0, 0, 1, 'a', 1, 'b', 0x42, 'c', 'd'})
+	f.Add([]byte{81 - 27, 2, 1, 0, 2, 0, 0, 0x41, 0, 0x41, 0, 3, 0xff, 0xff, 0xfe})
+	f.Add([]byte{27 * 2, 0, 5, 4, 'a', 'b', 'c', 'd', 0x81, 'e', 0x82, 'f', 'g', 0xc3, 'x', 'y', 'z'})
+	for i := 0; i < 12; i++ { // eleven-plus first bytes below one prefix: a 257-bit node
+		b := []byte{byte(i * 7), byte(i), byte(i * 3)}
+		for j := 0; j < 14; j++ {
+			b = append(b, 2, byte(j*17+i), byte(i))
+		}
+		f.Add(b)
+	}
+	f.Fuzz(func(t *testing.T, data []byte) {
+		c := decodeFuzzCase(data)
+		if c == nil {
+			return
+		}
+		c.Prop = "C01"
+		err := safeCheck(checkFuzzC01, c, fuzzStats)
+		if err == nil {
+			return
+		}
+		if _, ok := err.(*violation); !ok {
+			t.Fatalf("HARNESS ERROR (not a violation): %v", err)
+		}
+		fuzzFail(t, "C01", c, err)
+	})
+}
